@@ -37,7 +37,7 @@ mut("C13-sync1-no-from1to0", "kernel/global/gate.hpp",
     "          SynchVectorTicket<LocalVector_, Mirror_> ticket(vector, *_comm, _ranks, _mirrors);\n          ticket.wait();\n")
 mut("C13-dot-without-freqs", "kernel/global/gate.hpp", "          return sum(_freqs.triple_dot(x, y));\n", "          return sum(x.dot(y));\n")
 # ---- C12
-mut("C12-naive-rounding", "control/domain/parti_domain_control_base.hpp", "              ptr[i] = (i*num_elems) / num_parts;\n", "              ptr[i] = ((i+1u)*num_elems) / num_parts - 1u;\n")
+mut("C12-naive-empty-first-patch", "control/domain/parti_domain_control_base.hpp", "              ptr[i] = (i*num_elems) / num_parts;\n", "              ptr[i] = ((i-1u)*num_elems) / num_parts;\n")
 # ---- C05
 mut("C05-checkpoint-offset", "control/checkpoint_control.hpp", "          _offset_by_identifier[String(_input_array.data() + i, stringsize)] = i + stringsize;\n", "          _offset_by_identifier[String(_input_array.data() + i, stringsize)] = i + stringsize + (stringsize > 40u ? 1u : 0u);\n")
 # ---- C11
